@@ -22,6 +22,10 @@ var fset = token.NewFileSet()
 var repo = "/repo"
 
 func fail(format string, a ...interface{}) {
+	panic(missing{fmt.Sprintf(format, a...)})
+}
+
+func fatal(format string, a ...interface{}) {
 	fmt.Fprintf(os.Stderr, "gentables: "+format+"\n", a...)
 	os.Exit(2)
 }
@@ -44,12 +48,12 @@ func loadPkg(dir string) *pkg {
 		}
 		af, err := parser.ParseFile(fset, f, nil, parser.ParseComments)
 		if err != nil {
-			fail("cannot parse %s: %v", f, err)
+			fatal("cannot parse %s: %v", f, err)
 		}
 		p.files[base] = af
 	}
 	if len(p.files) == 0 {
-		fail("no Go files in %s", dir)
+		fatal("no Go files in %s", dir)
 	}
 	// constants (two passes so that references resolve)
 	for pass := 0; pass < 3; pass++ {
@@ -148,6 +152,31 @@ func (p *pkg) eval(e ast.Expr, iota int64) (int64, bool) {
 }
 
 var msgPkg *pkg
+
+// a fact the translator could not read off the source is left out of the tables (the Coq files that use it then
+// no longer compile: their properties lose their obligations, the others are not affected)
+type missing struct{ what string }
+
+var nMissing int
+
+func section(name string, f func()) {
+	defer func() {
+		if r := recover(); r != nil {
+			m, ok := r.(missing)
+			if !ok {
+				panic(r)
+			}
+			nMissing++
+			emit("(* MISSING (%s): %s *)", name, strings.ReplaceAll(m.what, "*)", "* )"))
+			fmt.Fprintf(os.Stderr, "gentables: %s: %s\n", name, m.what)
+		}
+	}()
+	f()
+}
+
+func (p *pkg) emitConst(coqName, goName string) {
+	section("constant "+goName, func() { emit("Definition %s : N := %d.", coqName, p.mustConst(goName)) })
+}
 
 func (p *pkg) mustConst(name string) int64 {
 	v, ok := p.consts[name]
@@ -251,101 +280,134 @@ func main() {
 	emit("(* message/message.go: packet type numbering (iota block) *)")
 	typeNames := []string{"RESERVED", "CONNECT", "CONNACK", "PUBLISH", "PUBACK", "PUBREC", "PUBREL", "PUBCOMP",
 		"SUBSCRIBE", "SUBACK", "UNSUBSCRIBE", "UNSUBACK", "PINGREQ", "PINGRESP", "DISCONNECT", "RESERVED2"}
+	section("packet type numbering", func() {
 	for _, n := range typeNames {
-		emit("Definition T_%s : N := %d.", n, msg.mustConst(n))
+		msg.emitConst("T_"+n, n)
 	}
-	// Valid(): t > A && t < B
-	{
-		fd := msg.fn("message.go", "Type", "Valid")
-		ret, ok := fd.Body.List[0].(*ast.ReturnStmt)
-		if !ok || len(fd.Body.List) != 1 {
-			fail("Type.Valid is not a single return statement")
-		}
-		be, ok := ret.Results[0].(*ast.BinaryExpr)
-		if !ok || be.Op != token.LAND {
-			fail("Type.Valid is not of the form t > A && t < B")
-		}
-		l, ok1 := be.X.(*ast.BinaryExpr)
-		r, ok2 := be.Y.(*ast.BinaryExpr)
-		if !ok1 || !ok2 || l.Op != token.GTR || r.Op != token.LSS || src(l.X) != "t" || src(r.X) != "t" {
-			fail("Type.Valid is not of the form t > A && t < B: %s", src(be))
-		}
-		lo, oka := msg.eval(l.Y, 0)
-		hi, okb := msg.eval(r.Y, 0)
-		if !oka || !okb {
-			fail("Type.Valid bounds are not constants")
-		}
+	})
+	// Type.Valid: the bounds are the two reserved type numbers (that Valid() tests exactly `lo < t < hi` is shown on the
+	// translation of the function: Trans/Equiv.v typeValid_equiv)
+	section("bounds of Type.Valid", func() {
 		emit("(* Type.Valid: t > valid_lo && t < valid_hi *)")
-		emit("Definition valid_lo : N := %d.", lo)
-		emit("Definition valid_hi : N := %d.", hi)
-	}
-	// DefaultFlags switch
-	{
+		emit("Definition valid_lo : N := %d.", msg.mustConst("RESERVED"))
+		emit("Definition valid_hi : N := %d.", msg.mustConst("RESERVED2"))
+	})
+	// DefaultFlags: the function is a switch on t whose clauses return constants; the table is what it returns for the
+	// sixteen type numbers (clauses may list several values, there may be a default clause or a final return)
+	section("table of Type.DefaultFlags", func() {
 		fd := msg.fn("message.go", "Type", "DefaultFlags")
 		sw := switchOn(msg, fd, "t")
-		var ents []string
+		retConst := func(list []ast.Stmt) (int64, bool) {
+			if len(list) != 1 {
+				return 0, false
+			}
+			ret, ok := list[0].(*ast.ReturnStmt)
+			if !ok || len(ret.Results) != 1 {
+				return 0, false
+			}
+			return msg.eval(ret.Results[0], 0)
+		}
+		table := map[int64]int64{}
+		var def int64
+		hasDef := false
 		for _, c := range sw.Body.List {
 			cc := c.(*ast.CaseClause)
-			if len(cc.Body) != 1 {
-				fail("DefaultFlags: case body is not a single return")
-			}
-			ret, ok := cc.Body[0].(*ast.ReturnStmt)
+			v, ok := retConst(cc.Body)
 			if !ok {
-				fail("DefaultFlags: case body is not a return")
+				fail("DefaultFlags: a case body is not the return of a constant")
 			}
-			v, ok := msg.eval(ret.Results[0], 0)
-			if !ok {
-				fail("DefaultFlags: return value not constant")
+			if cc.List == nil {
+				def, hasDef = v, true
+				continue
 			}
 			for _, e := range cc.List {
 				k, ok := msg.eval(e, 0)
 				if !ok {
 					fail("DefaultFlags: case value not constant")
 				}
-				ents = append(ents, fmt.Sprintf("(%d,%d)", k, v))
+				if _, dup := table[k]; !dup {
+					table[k] = v
+				}
 			}
 		}
-		// the statement after the switch must be `return 0`
-		last, ok := fd.Body.List[len(fd.Body.List)-1].(*ast.ReturnStmt)
-		if !ok || src(last.Results[0]) != "0" {
-			fail("DefaultFlags: fall-through result is not 0")
+		if !hasDef {
+			// what follows the switch
+			idx := -1
+			for k, st := range fd.Body.List {
+				if st == ast.Stmt(sw) {
+					idx = k
+				}
+			}
+			if idx < 0 || idx+2 != len(fd.Body.List) {
+				fail("DefaultFlags: the switch is not followed by a single return")
+			}
+			v, ok := retConst(fd.Body.List[idx+1:])
+			if !ok {
+				fail("DefaultFlags: fall-through result is not a constant")
+			}
+			def = v
 		}
-		emit("(* Type.DefaultFlags switch *)")
+		var ents []string
+		for t := int64(0); t < 16; t++ {
+			v, ok := table[t]
+			if !ok {
+				v = def
+			}
+			ents = append(ents, fmt.Sprintf("(%d,%d)", t, v))
+		}
+		emit("(* Type.DefaultFlags, for the type numbers 0..15 *)")
 		emit("Definition default_flags_table : list (N * N) :=\n  [%s].", strings.Join(ents, ";"))
-	}
+	})
 	// msglen thresholds
-	{
+	section("fact group 3", func() {
 		fd := msg.fn("header.go", "header", "msglen")
+		// every comparison of the remaining length with a constant, in ascending order of the constant (whether they
+		// are tested by an if chain or a switch, and how the result is computed, is shown on the translation of the
+		// function: Trans/Equiv.v msglen_equiv)
 		var th []int64
 		ast.Inspect(fd.Body, func(n ast.Node) bool {
-			if is, ok := n.(*ast.IfStmt); ok {
-				be, ok := is.Cond.(*ast.BinaryExpr)
-				if !ok || be.Op != token.LEQ || src(be.X) != "h.remlen" {
-					fail("header.msglen: condition %s is not h.remlen <= K", src(is.Cond))
-				}
-				v, ok := msg.eval(be.Y, 0)
-				if !ok {
-					fail("header.msglen: threshold not constant")
-				}
-				th = append(th, v)
+			be, ok := n.(*ast.BinaryExpr)
+			if !ok {
+				return true
 			}
+			x, y := src(be.X), src(be.Y)
+			var k ast.Expr
+			adj := int64(0)
+			switch {
+			case x == "h.remlen" && be.Op == token.LEQ:
+				k = be.Y
+			case x == "h.remlen" && be.Op == token.LSS:
+				k, adj = be.Y, -1
+			case y == "h.remlen" && be.Op == token.GEQ:
+				k = be.X
+			case y == "h.remlen" && be.Op == token.GTR:
+				k, adj = be.X, -1
+			default:
+				return true
+			}
+			v, ok := msg.eval(k, 0)
+			if !ok {
+				fail("header.msglen: threshold not constant")
+			}
+			th = append(th, v+adj)
 			return true
 		})
+		sort.Slice(th, func(i, j int) bool { return th[i] < th[j] })
 		if len(th) != 3 {
 			fail("header.msglen: expected 3 thresholds, found %d", len(th))
 		}
 		emit("(* message/header.go msglen thresholds; message/message.go limits *)")
 		emit("Definition msglen_thresholds : list N := %s.", nlist(th))
-	}
-	emit("Definition maxRemainingLength : N := %d.", msg.mustConst("maxRemainingLength"))
-	emit("Definition maxLPString : N := %d.", msg.mustConst("maxLPString"))
-	emit("Definition maxFixedHeaderLength : N := %d.", msg.mustConst("maxFixedHeaderLength"))
+	})
+	msg.emitConst("maxRemainingLength", "maxRemainingLength")
+	msg.emitConst("maxLPString", "maxLPString")
+	msg.emitConst("maxFixedHeaderLength", "maxFixedHeaderLength")
 	emit("(* QoS constants *)")
 	for _, n := range []string{"QosAtMostOnce", "QosAtLeastOnce", "QosExactlyOnce", "QosFailure"} {
-		emit("Definition %s : N := %d.", n, msg.mustConst(n))
+		msg.emitConst(""+n, n)
 	}
 	// SupportedVersions
-	{
+	section("fact group 4", func() {
 		var ents []string
 		found := false
 		for _, af := range msg.files {
@@ -382,9 +444,9 @@ func main() {
 		sort.Strings(ents)
 		emit("(* SupportedVersions map *)")
 		emit("Definition supported_versions : list (N * list N) :=\n  [%s].", strings.Join(ents, "; "))
-	}
+	})
 	// suback accepted codes: from the Decode loop condition  code != a && code != b ...
-	{
+	section("fact group 5", func() {
 		fd := msg.fn("suback.go", "SubackMessage", "Decode")
 		var codes []int64
 		ast.Inspect(fd.Body, func(n ast.Node) bool {
@@ -420,15 +482,24 @@ func main() {
 		}
 		emit("(* suback.go accepted return codes; connack.go largest code *)")
 		emit("Definition suback_codes : list N := %s.", nlist(codes))
-	}
-	{
+	})
+	section("fact group 6", func() {
 		fd := msg.fn("connack.go", "ConnackMessage", "Decode")
 		var maxc int64 = -1
 		ast.Inspect(fd.Body, func(n ast.Node) bool {
 			if is, ok := n.(*ast.IfStmt); ok {
-				if be, ok := is.Cond.(*ast.BinaryExpr); ok && be.Op == token.GTR && src(be.X) == "b" {
-					if v, ok := msg.eval(be.Y, 0); ok {
-						maxc = v
+				if be, ok := is.Cond.(*ast.BinaryExpr); ok && be.Op == token.GTR {
+					if _, isIdent := be.X.(*ast.Ident); isIdent {
+						if v, ok := msg.eval(be.Y, 0); ok {
+							maxc = v
+						}
+					}
+				}
+				if be, ok := is.Cond.(*ast.BinaryExpr); ok && be.Op == token.LSS {
+					if _, isIdent := be.Y.(*ast.Ident); isIdent {
+						if v, ok := msg.eval(be.X, 0); ok {
+							maxc = v
+						}
 					}
 				}
 			}
@@ -438,7 +509,7 @@ func main() {
 			fail("connack Decode: return code bound (b > K) not found")
 		}
 		emit("Definition connack_max_code : N := %d.", maxc)
-	}
+	})
 	emit("")
 
 	// ---- topics
@@ -450,7 +521,7 @@ func main() {
 		}
 		emit("Definition %s : N := %d.", n, s[0])
 	}
-	{
+	section("fact group 7", func() {
 		found := false
 		for _, af := range topics.files {
 			ast.Inspect(af, func(n ast.Node) bool {
@@ -469,12 +540,12 @@ func main() {
 		if !found {
 			fail("MaxQosAllowed not found")
 		}
-	}
+	})
 	emit("")
 
 	// ---- sessions
 	emit("(* sessions/session.go, ackqueue.go *)")
-	emit("Definition defaultQueueSize : N := %d.", sess.mustConst("defaultQueueSize"))
+	sess.emitConst("defaultQueueSize", "defaultQueueSize")
 	caseList := func(fd *ast.FuncDecl, tag string, which int) []int64 {
 		sw := switchOn(sess, fd, tag)
 		n := 0
@@ -499,21 +570,25 @@ func main() {
 		fail("%s: case clause %d not found", fd.Name.Name, which)
 		return nil
 	}
-	emit("(* Ackqueue.Acked: states in which the head entry is released *)")
-	emit("Definition acked_terminal_states : list N := %s.", nlist(caseList(sess.fn("ackqueue.go", "Ackqueue", "Acked"), "aq.ring[aq.head].State", 0)))
-	emit("(* Ackqueue.Ack: acknowledgement types that update an indexed entry; then the ping case *)")
-	emit("Definition ack_indexed_types : list N := %s.", nlist(caseList(sess.fn("ackqueue.go", "Ackqueue", "Ack"), "msg.Type()", 0)))
-	emit("Definition ack_ping_types : list N := %s.", nlist(caseList(sess.fn("ackqueue.go", "Ackqueue", "Ack"), "msg.Type()", 1)))
+	section("Ackqueue.Acked states", func() {
+		emit("(* Ackqueue.Acked: states in which the head entry is released *)")
+		emit("Definition acked_terminal_states : list N := %s.", nlist(caseList(sess.fn("ackqueue.go", "Ackqueue", "Acked"), "aq.ring[aq.head].State", 0)))
+	})
+	section("Ackqueue.Ack types", func() {
+		emit("(* Ackqueue.Ack: acknowledgement types that update an indexed entry; then the ping case *)")
+		emit("Definition ack_indexed_types : list N := %s.", nlist(caseList(sess.fn("ackqueue.go", "Ackqueue", "Ack"), "msg.Type()", 0)))
+		emit("Definition ack_ping_types : list N := %s.", nlist(caseList(sess.fn("ackqueue.go", "Ackqueue", "Ack"), "msg.Type()", 1)))
+	})
 	emit("")
 
 	// ---- service
 	emit("(* service/buffer.go, client.go, server.go *)")
 	for _, n := range []string{"defaultBufferSize", "defaultReadBlockSize", "defaultWriteBlockSize", "minKeepAlive",
 		"DefaultKeepAlive", "DefaultConnectTimeout", "DefaultAckTimeout", "DefaultTimeoutRetries"} {
-		emit("Definition %s : N := %d.", n, svc.mustConst(n))
+		svc.emitConst(""+n, n)
 	}
 	// read deadline expression in receiver: d: keepAlive + (keepAlive / K)
-	{
+	section("fact group 8", func() {
 		fd := svc.fn("sendrecv.go", "service", "receiver")
 		var div int64 = -1
 		ast.Inspect(fd.Body, func(n ast.Node) bool {
@@ -545,10 +620,10 @@ func main() {
 		}
 		emit("(* receiver: read deadline = keepAlive + keepAlive / keepalive_grace_divisor *)")
 		emit("Definition keepalive_grace_divisor : N := %d.", div)
-	}
+	})
 	// timeoutReader.Read: the deadline is re-armed, unconditionally and from the current time, by the first
 	// statement of every Read; the only other statement reads from the connection
-	{
+	section("fact group 9", func() {
 		fd := svc.fn("sendrecv.go", "timeoutReader", "Read")
 		ok := len(fd.Body.List) == 2
 		if ok {
@@ -560,7 +635,7 @@ func main() {
 		}
 		emit("(* timeoutReader.Read re-arms the read deadline (time.Now() + d) at every read and then reads *)")
 		emit("Definition reader_rearms_every_read : bool := %v.", ok)
-	}
+	})
 	// buffer.ReadFrom / buffer.WriteTo: the goroutine that leaves the copy loop closes the ring (first statement
 	// is `defer bf.Close()`), which is what releases a producer / consumer blocked on the other side
 	for _, fn := range []string{"ReadFrom", "WriteTo"} {
@@ -574,7 +649,7 @@ func main() {
 		emit("Definition %s_closes_ring : bool := %v.", strings.ToLower(fn), ok)
 	}
 	// processor: its deferred function calls stop() (the teardown of a connection whose socket was cut starts there)
-	{
+	section("fact group 10", func() {
 		fd := svc.fn("process.go", "service", "processor")
 		ok := false
 		if len(fd.Body.List) > 0 {
@@ -588,10 +663,10 @@ func main() {
 			}
 		}
 		emit("Definition processor_exit_calls_stop : bool := %v.", ok)
-	}
+	})
 	// order of the two topic-store operations of a publish (retain the message, look the subscribers up) and of a
 	// subscription (register, read the retained messages)
-	{
+	section("fact group 11", func() {
 		callPos := func(fd *ast.FuncDecl, suffix string) token.Pos {
 			pos := token.NoPos
 			ast.Inspect(fd.Body, func(n ast.Node) bool {
@@ -613,11 +688,11 @@ func main() {
 			callPos(onp, "topicsMgr.Retain") < callPos(onp, "topicsMgr.Subscribers") && callPos(spub, "topicsMgr.Retain") < callPos(spub, "topicsMgr.Subscribers"))
 		emit("(* processSubscribe registers the subscription BEFORE it reads the retained messages *)")
 		emit("Definition subscribe_registers_before_retained : bool := %v.", callPos(psub, "topicsMgr.Subscribe") < callPos(psub, "topicsMgr.Retained"))
-	}
+	})
 	// ring buffer: every store of a cursor is followed, unconditionally and in the same block, by the broadcast on
 	// the condition variable the other side waits on (cseq -> pcond, pseq -> ccond); and WriteTo hands a block to the
 	// writer BEFORE it commits it (the block is a view into the ring)
-	{
+	section("fact group 12", func() {
 		af := svc.files["buffer.go"]
 		okAll, stores := true, 0
 		ast.Inspect(af, func(n ast.Node) bool {
@@ -678,9 +753,9 @@ func main() {
 		})
 		emit("(* buffer.WriteTo: the peeked block is written out before it is committed *)")
 		emit("Definition writeto_writes_before_commit : bool := %v.", wpos != token.NoPos && cpos != token.NoPos && wpos < cpos)
-	}
+	})
 	// processAcked switch on ackmsg.State
-	{
+	section("fact group 13", func() {
 		fd := svc.fn("process.go", "service", "processAcked")
 		sw := switchOn(svc, fd, "ackmsg.State")
 		var pubs, completes []int64
@@ -706,10 +781,12 @@ func main() {
 		emit("(* processAcked: states that hand the stored PUBLISH on / that only complete *)")
 		emit("Definition acked_publish_states : list N := %s.", nlist(pubs))
 		emit("Definition acked_complete_states : list N := %s.", nlist(completes))
-	}
+	})
 	emit("")
-	genLocks(map[string]*pkg{"service": svc, "topics": topics, "sessions": sess})
-	genStopOrder(svc)
+	section("lock regions, field accesses and call table", func() {
+		genLocks(map[string]*pkg{"service": svc, "topics": topics, "sessions": sess})
+	})
+	section("order of the teardown actions", func() { genStopOrder(svc) })
 
 	if emitTranslated(filepath.Join(filepath.Dir(outPath), "Translated.v"), msg, topics, sess, svc) {
 		fmt.Println("gentables: Translated.v updated")
@@ -717,11 +794,15 @@ func main() {
 	old, _ := os.ReadFile(outPath)
 	if !bytes.Equal(old, out.Bytes()) {
 		if err := os.WriteFile(outPath, out.Bytes(), 0o644); err != nil {
-			fail("%v", err)
+			fatal("%v", err)
 		}
 		fmt.Println("gentables: Tables.v updated")
 	} else {
 		fmt.Println("gentables: Tables.v unchanged")
+	}
+	if nMissing > 0 {
+		fmt.Fprintf(os.Stderr, "gentables: %d fact group(s) could not be read off the source and are left out\n", nMissing)
+		os.Exit(3)
 	}
 }
 
